@@ -12,8 +12,8 @@ LEVEL = "exploration"
 SHARDS = {"quick": 16, "thorough": 16}
 RULE = (
     "Hypothesis generates programs as in C01 (every constant kind: int and str set literals, tuples, nested code, defaults; cycles; aliases/wrappers; 1-2 modules) and, per program, "
-    "k configurations (4 quick / 8 thorough) = PYTHONHASHSEED value x permutation of the definition order (aliases/wrappers stay after their targets) x permutation of the order in which "
-    "versions are first queried; every configuration is a real interpreter start. Oracle (metamorphic): the map function -> version is identical in all configurations; and process A "
+    "k configurations (4 quick / 8 thorough) = PYTHONHASHSEED value x permutation of the definition order (aliases/wrappers stay after their targets, a function after the function its parameter default names; optionally grouped so that all plain helpers / all variables / all memento functions come last) x permutation of the order in which "
+    "versions are first queried; every configuration is a real interpreter start. For half of the cases a module variable is additionally re-bound or mutated: configuration 0 imports the text that already contains the new value, every other configuration imports the original text and asks every function for its version once (warm in-process version cache), applies the change in-process and only then performs its recorded queries in its own order. Oracle (metamorphic): the map function -> version is identical in all configurations; and process A "
     "calls all automatically-versioned functions against an empty store, then process B (different hash seed, different definition and query order) repeats the calls on that store: "
     "B executes no function body and returns the same values. Non-trivial = the program has an order-sensitive ingredient (set literal with >= 2 members, >= 2 dependencies, >= 2 tracked "
     "variables or a cycle) and the configurations differ in hash seed and order; distinct by program."
@@ -33,20 +33,43 @@ PY = "/venv/bin/python" if os.path.exists("/venv/bin/python") else sys.executabl
 ROOT = os.path.dirname(os.path.dirname(os.path.abspath(__file__)))
 
 
-def _run_config(d, prog, cfg, store, call, idx):
+def _rebound(case):
+    """(edited program, [[module, statement]]) for the optional variable re-binding of the case, else (None, [])"""
+    rb = case.get("rebind")
+    if not rb:
+        return None, []
+    p2, info = progs.apply_edit(case["program"], rb, "r")
+    if not info["applied"]:
+        return None, []
+    # only the variable changes: explicit version strings stay as they are in both deliveries (versions are compared,
+    # and every configuration computes with the new value)
+    for dd in progs.fns(p2):
+        dd["version"] = progs.find(case["program"], dd["name"]).get("version")
+    if info.get("stmt"):
+        return p2, [[info["target_mod"], info["stmt"]]]
+    dd = progs.find(p2, info["target"])
+    return p2, [[dd["mod"], progs.render_def(p2, dd)]]
+
+
+def _run_config(d, prog, cfg, store, call, idx, pre_cells=()):
     order = cfg["order"]
     n = len(prog["defs"])
     # permutation applied to non-alias defs, aliases/wrappers kept last
     base = [i for i in range(n) if prog["defs"][i]["k"] not in ("alias", "wrapper")]
     tail = [i for i in range(n) if prog["defs"][i]["k"] in ("alias", "wrapper")]
-    perm = sorted(base, key=lambda i: (order[i % len(order)] if order else 0, i)) + tail
+    # "mode" groups the definitions: e.g. every plain helper (or every variable) only after all memento functions, so that
+    # versions computed at decoration time saw undefined symbols which are defined later without any further registration
+    grp = {"plain-last": lambda dd: 1 if (dd["k"] == "fn" and not dd["memento"]) else 0,
+           "vars-last": lambda dd: 1 if dd["k"] == "var" else 0,
+           "memento-last": lambda dd: 1 if (dd["k"] == "fn" and dd["memento"]) else 0}.get(cfg.get("mode"), lambda dd: 0)
+    perm = sorted(base, key=lambda i: (grp(prog["defs"][i]), order[i % len(order)] if order else 0, i)) + tail
     pkgroot = os.path.join(d, "cfg%d" % idx)
     progrun.write_files(pkgroot, progs.render_files(prog, order=perm))
     mem = [[f["mod"], f["name"]] for f in progs.fns(prog) if f["memento"]]
     q = sorted(mem, key=lambda mn: (cfg["query"][mem.index(mn) % len(cfg["query"])] if cfg["query"] else 0, mn))
     roots = [[f["mod"], f["name"]] for f in progs.fns(prog) if f["memento"] and f.get("version") is None]
     spec = {"pkgroot": pkgroot, "pkg": prog["pkg"], "modules": prog["modules"], "store": store, "query": q, "roots": roots,
-            "args": [1, 2], "call": call}
+            "args": [1, 2], "call": call, "pre_cells": list(pre_cells)}
     sf = os.path.join(d, "spec%d.json" % idx)
     with open(sf, "w") as f:
         json.dump(spec, f)
@@ -69,9 +92,17 @@ def execute(case, scratch):
         store = os.path.join(d, "store")
         os.makedirs(store)
         results = []
+        p2, pre = _rebound(case)
         for i, cfg in enumerate(cfgs):
-            # configuration 0 and 1 share the store and call the roots (A then B); the rest only compute versions
-            results.append(_run_config(d, prog, cfg, store if i < 2 else os.path.join(d, "s%d" % i), call=i < 2, idx=i))
+            # configuration 0 and 1 share the store and call the roots (A then B); the rest only compute versions.
+            # With a re-binding, configuration 0 imports the program text in which the variable already has its new
+            # value; every other configuration imports the original text, asks every function for its version once, then
+            # re-binds / mutates the variable in-process, then performs its recorded queries in its own order.
+            if p2 is not None and i == 0:
+                results.append(_run_config(d, p2, cfg, store, call=True, idx=i))
+            else:
+                results.append(_run_config(d, prog, cfg, store if i < 2 else os.path.join(d, "s%d" % i), call=i < 2, idx=i,
+                                           pre_cells=pre if p2 is not None else ()))
         v0 = results[0]["versions"]
         for i, r in enumerate(results[1:], 1):
             diff = sorted(k for k in v0 if r["versions"].get(k) != v0[k])
@@ -94,13 +125,13 @@ def execute(case, scratch):
             if a["results"] != b["results"]:
                 out.violation("second process returned different values: %r vs %r" % (b["results"], a["results"]), symptom="values-differ")
         feats = progs.features(prog)
-        sensitive = ("inset" in feats) or sum(1 for dd in prog["defs"] if dd["k"] == "var") >= 2 or \
+        sensitive = ("inset" in feats) or ("dict-from-set" in feats) or ("fn-default" in feats) or sum(1 for dd in prog["defs"] if dd["k"] == "var") >= 2 or \
             any(len(progs.edges(prog, f["name"])[0]) >= 2 for f in progs.fns(prog))
         differ = len({c["seed"] for c in cfgs}) > 1
         out.nontrivial = sensitive and differ
-        out.labels = ["feat:" + f for f in feats] + ["configs:%d" % len(cfgs)]
+        out.labels = ["feat:" + f for f in feats] + ["configs:%d" % len(cfgs)] + (["rebind-after-import"] if p2 is not None else [])
         out.render = {"files": {k: v for k, v in progs.render_files(prog).items() if not k.endswith("__init__.py")},
-                      "configs": [_cfg(c) for c in cfgs], "versions": v0}
+                      "configs": [_cfg(c) for c in cfgs], "versions": v0, "rebind_after_import": pre}
         out.nt_key = prog
         return out
     finally:
@@ -108,7 +139,7 @@ def execute(case, scratch):
 
 
 def _cfg(c):
-    return {"PYTHONHASHSEED": c["seed"], "order": c["order"][:6], "query": c["query"][:6]}
+    return {"PYTHONHASHSEED": c["seed"], "order": c["order"][:6], "query": c["query"][:6], "mode": c.get("mode", "mixed")}
 
 
 def replay(case, ctx):
@@ -118,19 +149,21 @@ def replay(case, ctx):
 def strategy(thorough):
     from hypothesis import strategies as st
     k = 8 if thorough else 4
-    cfg = st.builds(lambda s, o, q: {"seed": s, "order": o, "query": q},
+    cfg = st.builds(lambda s, o, q, md: {"seed": s, "order": o, "query": q, "mode": md},
                     st.one_of(st.sampled_from([0, 1, 2, 3]), st.integers(4, 2**31)),
-                    st.lists(st.integers(0, 20), min_size=1, max_size=10), st.lists(st.integers(0, 20), min_size=1, max_size=8))
+                    st.lists(st.integers(0, 20), min_size=1, max_size=10), st.lists(st.integers(0, 20), min_size=1, max_size=8),
+                    st.sampled_from(["mixed", "mixed", "mixed", "plain-last", "vars-last", "memento-last"]))
     cfgs = st.lists(cfg, min_size=k, max_size=k).map(
         lambda cs: [dict(c, seed=(c["seed"] if i != 1 or c["seed"] != cs[0]["seed"] else c["seed"] + 1)) for i, c in enumerate(cs)])
-    return st.builds(lambda p, c: {"program": p, "configs": c},
-                     progs.program_strategy(max_fns=7 if thorough else 5, allow_hidden=False), cfgs)
+    rebind = st.one_of(st.none(), st.builds(lambda e, k: dict(e, kind=k), progs.edit_strategy(), st.sampled_from(["var", "var", "varmut", "varcopy"])))
+    return st.builds(lambda p, c, rb: {"program": p, "configs": c, "rebind": rb},
+                     progs.program_strategy(max_fns=7 if thorough else 5, allow_hidden=False, allow_fdef=True, allow_dictset=True), cfgs, rebind)
 
 
 def run_shard(ctx):
     stats = core.Stats()
     thorough = ctx.tier == "thorough"
-    core.hyp_search(strategy(thorough), lambda c: execute(c, ctx.scratch), stats, max_examples=25 if thorough else 3,
+    core.hyp_search(strategy(thorough), lambda c: execute(c, ctx.scratch), stats, max_examples=25 if thorough else 4,
                     seed=core.hash64(ctx.seed, ID, ctx.shard), findings=ctx.findings, shrink=thorough,
                     deadline_s=(ctx.deadline - time.time()) if ctx.deadline else None)
     return stats
